@@ -505,11 +505,14 @@ async def interval(period) -> AsyncIterable[float]:
         raise ValueError('period must not be negative')
     last_time = time.now
     while True:
-        remaining_delay = last_time + period - time.now
-        if remaining_delay < 0:
+        # the grid is made of dates: a pause computed as a *duration* would round
+        # differently for every length of the loop body
+        next_time = last_time + period
+        now = time.now
+        if next_time < now:
             raise IntervalExceeded()
-        elif remaining_delay > 0:
-            await suspend(delay=remaining_delay, until=None)
+        elif next_time > now:
+            await suspend(delay=None, until=next_time)
         else:
             await postpone()
         last_time = time.now
